@@ -233,16 +233,52 @@ def validate_trace(module, cfg_text, trace_path, timeout=900):
             "lines": sum(len(ls) for _, ls in scen), "tlc_states": res["distinct"], "rounds": 1, "wall": res["wall"]}
 
 
+MC_CACHE = os.path.join(VERIF, ".cache", "mc")
+
+
+def _mc_key(module, cfg_text):
+    h = hashlib.sha256()
+    for fn in sorted(os.listdir(SPEC)):
+        if fn.endswith(".tla"):
+            h.update(fn.encode())
+            with open(os.path.join(SPEC, fn), "rb") as f:
+                h.update(f.read())
+    h.update(module.encode())
+    h.update(cfg_text.encode())
+    return h.hexdigest()[:32]
+
+
 def model_check(module, cfg_text, workers=8, timeout=1800, expect_violation=False, extra=()):
-    """Exhaustive check of a bounded design model.  Returns dict(states, distinct, ok, violated)."""
+    """Exhaustive check of a bounded design model.  Returns dict(states, distinct, ok, violated).
+    A design model does not depend on /repo: the result of a finished run is remembered under the hash of every module's text
+    and the configuration (/verif/.cache/mc, not committed), so that the checks of one family do not repeat the same exploration."""
+    key = _mc_key(module, cfg_text)
+    cpath = os.path.join(MC_CACHE, key + ".json")
+    if os.path.exists(cpath) and not os.environ.get("VERIF_NO_MC_CACHE"):
+        try:
+            with open(cpath) as f:
+                c = json.load(f)
+            c["cached"] = True
+            return c
+        except (OSError, ValueError):
+            pass
     res = run_tlc(module, cfg_text, workers=workers, timeout=timeout, extra=extra, java_opts="-Xss64m")
     out = res["out"]
     violated = re.findall(r"Error: Invariant (\w+) is violated", out) + re.findall(r"Error: Temporal propert(?:ies were|y \w+ was) violated", out)
     finished = "Model checking completed. No error has been found." in out
     if not finished and not violated:
         raise Undecided(f"TLC failed on design model {module}:\n" + out[-6000:])
-    return {"generated": res["generated"], "distinct": res["distinct"], "ok": finished, "violated": violated,
-            "wall": res["wall"], "out": out}
+    ret = {"generated": res["generated"], "distinct": res["distinct"], "ok": finished, "violated": violated,
+           "wall": res["wall"], "out": out[-4000:], "cached": False}
+    try:
+        os.makedirs(MC_CACHE, exist_ok=True)
+        tmp = cpath + ".%d.tmp" % os.getpid()
+        with open(tmp, "w") as f:
+            json.dump(ret, f)
+        os.replace(tmp, cpath)
+    except OSError:
+        pass
+    return ret
 
 
 # --------------------------------------------------------------------------
